@@ -273,9 +273,8 @@ func c08Exhaustive(emit func(string)) {
 }
 
 func c08Gen(r *vu.RNG, n int, emit func(string)) {
-	// verifutil's streams for seeds s and s+1 are the same sequence shifted by one draw and
-	// re-synchronise after a few histories: restart from a mixed value so that different seeds
-	// give unrelated histories
+	// restart from a mixed value: with the first verifutil.NewRNG the streams of seeds s and s+1
+	// were the same sequence shifted by one draw (repaired since; the restart is kept, it is harmless)
 	r = vu.NewRNG(r.U64())
 	// only in the main run of the thorough tier (n_thorough), not in bin/check's search runs
 	if vu.Thorough() && n >= 50000 {
